@@ -154,6 +154,79 @@ def replay(case):
     return msg is not None, msg or "holds"
 
 
+def f18_switch_dispatch_fallback():
+    neg = lambda z: -z
+    s = cached(switch(Option("A", 0).bind(lambda a: Option("B") if a else Value(1)), {1: Option("Z") >> neg}, default=Option("Z")))
+    a = s({"A": True, "Z": 5})
+    b = s({"Z": 5})
+    if (a, b) != (5, -5):
+        return f"switch whose dispatch fails under one dictionary and succeeds under a pruning of it: equal fingerprints, cached results {a},{b} (expected 5,-5)"
+
+
+def f19_coalesce_member_fallback():
+    p = Option("A", 0).bind(lambda a: Option("B") if a else Value(1))
+    c = coalesce(p, Option("Z"))
+    o = {"A": True, "Z": 5}
+    ks = c.keys(o)
+    a = c(o)
+    b = c({k: o[k] for k in ks})
+    if a != b:
+        return f"coalesce whose first member fails: keys({o}) = {ks}, value {a}; on the restriction to those keys the value is {b}"
+
+
+def f21_coalesce_partial_body():
+    def body(a):
+        if a < 0:
+            raise ValueError("negative")
+        return a
+    p = Option("A") >> body
+    c = coalesce(p, Option("B"))
+    o = {"A": -1}
+    v = outcome(lambda: c.validate(o))
+    e = outcome(lambda: c(o))
+    x = outcome(lambda: c.explain(o))
+    if v[0] == "ok" and e[0] == "err":
+        return f"coalesce(p, Option('B')) with p validating but raising: validate passes, evaluate fails ({e}), explain={x}"
+
+
+def f15_effect_options_not_in_keys():
+    seen = []
+
+    @dataset(effects=[Option("E").apply(lambda e: (lambda v: seen.append((e, v))))])
+    def d(a=Option("A")):
+        return a
+
+    @dataset
+    def outer(x=d):
+        return x
+    ks = outcome(lambda: d.keys({"A": 1}))
+    v = outcome(lambda: d.validate({"A": 1}))
+    e = outcome(lambda: d({"A": 1}))
+    if ks[0] == "ok" and (v[0] == "err" or e[0] == "err"):
+        return f"effect needing Option('E'): keys succeeds ({ks[1]}), validate {v[0]}, evaluate {e[0]}"
+
+
+def f20_with_options_precedence():
+    @dataset(options={"A": 1})
+    def d(a=Option("A")):
+        return a
+    r1 = d.with_options({"A": 2})({})
+    r2 = d({"A": 2})
+    if r1 != r2:
+        return f"d.with_options({{'A': 2}})({{}}) = {r1} but d({{'A': 2}}) = {r2}: the derivative's options override the dataset's own pre-set options"
+
+
+def f17_pickle_decorated_dataset():
+    import pickle, sys, types
+    mod = types.ModuleType("verif_pickle_mod")
+    sys.modules["verif_pickle_mod"] = mod
+    exec("from labrea import dataset, Option\n@dataset\ndef f(a=Option('A')):\n    return a\n", mod.__dict__)
+    try:
+        pickle.loads(pickle.dumps(mod.f))
+    except Exception as e:  # noqa
+        return f"decorator-form dataset cannot be pickled: {type(e).__name__}: {str(e)[:120]}"
+
+
 def scenarios():
     return {k: v for k, v in list(globals().items()) if k.startswith("f") and callable(v) and k[1].isdigit()}
 
